@@ -531,3 +531,15 @@ def c_backend_state():
         return "available" if yaml.__with_libyaml__ else "unavailable"
     except Exception:
         return "unavailable"
+
+
+def save_regress(prop, arm_name, name, case, note=""):
+    """Used by tools/mkregress.py to pin a saved input into the committed replay tier."""
+    d = os.path.join(VERIF, "regress", prop)
+    os.makedirs(d, exist_ok=True)
+    path = os.path.join(d, name + ".json")
+    rec = dict(property=prop, arm=arm_name, tier="quick", note=note, case_repr=safe_repr(case, 5000),
+               case_pickle_b64=base64.b64encode(pickle.dumps(case, 4)).decode())
+    with open(path, "w", encoding="utf-8") as fh:
+        json.dump(rec, fh, indent=1, ensure_ascii=True)
+    return path
